@@ -122,6 +122,8 @@ func streamSig(c *ctx) {
 	for round := 0; round < c.n(6, 60); round++ {
 		for _, a := range sigAlgs {
 			var d *big.Int
+			nOrd := a.curve.Params().N
+			boundary := []*big.Int{new(big.Int).Sub(nOrd, big.NewInt(1)), new(big.Int).Sub(nOrd, big.NewInt(2)), big.NewInt(1), big.NewInt(2), new(big.Int).Rsh(nOrd, 1)}
 			switch round % 3 {
 			case 0: // small scalars: private key with many leading zero bytes
 				d = big.NewInt(int64(1 + c.r.intn(1000)))
@@ -139,6 +141,9 @@ func streamSig(c *ctx) {
 			default:
 				d = new(big.Int).SetBytes(c.r.bytes(a.size - 1))
 				d.Add(d, big.NewInt(1))
+			}
+			if round < len(boundary) { // the first rounds: the extreme valid scalars n-1, n-2, 1, 2 and n/2
+				d = boundary[round]
 			}
 			k, priv := ecKeyFromScalar(a, d)
 			if k == nil {
